@@ -97,7 +97,7 @@ def thermo_case(rep, spec, index):
     res_p = max(abs(pp[0] - ppt[1]) / max(abs(pp[0]), 1e-300) / (1 + abs(math.log(g[0]))),
                 abs(pp[1] - ppt[0]) / max(abs(pp[1]), 1e-300) / (1 + abs(math.log(g[1]))))
     # sensitivity of ln(gamma) to the composition, measured on the real function (for the weight basis only)
-    tol = 256 * EPS * cond
+    tol = (256 if model == "NRTL" else 8192) * EPS * cond  # the UNIQUAC expression cancels large terms (z up to 473 in the shipped sets)
     if basis == "weight":
         h = 1e-7 * min(xm, 1 - xm)
         ga = calculate_activity_coefficients(T, mix, Composition(p=xm + h, type="molar"), model)
